@@ -44,7 +44,7 @@ def blob_strategy(n):
         st.tuples(st.just('other'), d, st.integers(0, 2)),
         st.tuples(st.just('commit')), st.tuples(st.just('abort')),
     ).map(list)
-    return st.fixed_dictionaries({'blob_kind': st.sampled_from(['fs', 'bmap']),
+    return st.fixed_dictionaries({'blob_kind': st.sampled_from(['fs', 'fs', 'bmap', 'bmap', 'bfs']),
                                   'first': st.sampled_from(['node', 'blob']),
                                   'blob_ops': st.lists(op, min_size=3, max_size=n)})
 
